@@ -68,8 +68,10 @@ def check_sign(case):
     z = bytes.fromhex(case['digest'])
     k = _lib_key(x, comp)
     P = secp.mul(x, secp.G)
-    for i in range(3):
-        sig = libx.call('sign', k.sign, z)[1]
+    if 'sigs' not in case:
+        case['sigs'] = [libx.call('sign', k.sign, z)[1].hex() for _ in range(3)]      # OpenSSL nonce is random: keep the bytes for replay
+    for sh_ in case['sigs']:
+        sig = bytes.fromhex(sh_)
         rs = secp.parse_der_strict(sig)
         if rs is None:
             raise Violation('sign/not-strict-der', 'signature %s is not strictly DER encoded' % sig.hex())
